@@ -1,5 +1,5 @@
 (* Sketch.v — executable model of sketch.go (4-bit count-min sketch on uint64 words),
-   policy.admit, and xmath.RoundUpPowerOf264.  No proofs here (see SketchProofs.v),
+   the admission test of policy.go, and xmath.RoundUpPowerOf264.  No proofs here (see SketchProofs.v),
    so that the model still extracts when a proof breaks.
 
    Transcription notes (sketch.go):
@@ -144,11 +144,11 @@ Definition ensure_capacity (s : sketch) (maximumSize : Z) : sketch :=
            (Z.shiftr newSize 3 - 1)
            0 true.
 
-(* policy.admit: rnd is the value p.rand() would return (only consulted on the random path) *)
-Definition admitHashdosThreshold : Z := 6.
-Definition admit (s : sketch) (rcand rvict rnd : Z) : bool :=
+(* the admission test of policy.go: rnd is the value p.rand() would return (only consulted on the random path) *)
+Definition hashdosThreshold : Z := 6.
+Definition accept (s : sketch) (rcand rvict rnd : Z) : bool :=
   let victimFreq := frequency s rvict in
   let candidateFreq := frequency s rcand in
   if candidateFreq >? victimFreq then true
-  else if candidateFreq >=? admitHashdosThreshold then Z.land rnd 127 =? 0
+  else if candidateFreq >=? hashdosThreshold then Z.land rnd 127 =? 0
   else false.
